@@ -86,6 +86,18 @@ type Doc struct {
 	Merge  map[string]any `json:"mergePatch,omitempty"`
 	JP     []JP           `json:"jsonPatch,omitempty"`
 	JQ     *JQ            `json:"jq,omitempty"`
+	// Intf (class Conc): the writes ANOTHER WRITER has ready for the object this document
+	// addresses; each mutating request of the operation lets the next one happen first.
+	Intf []Write `json:"intf,omitempty"`
+}
+
+// Write is one write of the other writer: "set" = read-modify-write .data[Key] = Value of the
+// existing object (nothing when it does not exist), "put" = create Object (nothing when it exists).
+type Write struct {
+	Kind   string         `json:"kind"`
+	Key    string         `json:"key,omitempty"`
+	Value  string         `json:"value,omitempty"`
+	Object map[string]any `json:"object,omitempty"`
 }
 
 // Reg registers a kind in a groupVersion on the fake cluster (a CRD).  The order of the
@@ -105,6 +117,10 @@ type Input struct {
 	// through ONE ObjectPatcher against one cluster.
 	Session  bool  `json:"session,omitempty"`
 	Registry []Reg `json:"registry,omitempty"`
+	// Conc: the third case class.  One execution against an API-server layer in front of the
+	// fake cluster that keeps resourceVersions, refuses outdated Updates (409 Conflict) and lets
+	// another writer (Doc.Intf) in right before it handles a mutating request of the operator.
+	Conc bool `json:"conc,omitempty"`
 	// Operator: "", "json" or "yaml" — additionally run the rendering through the real
 	// operator (hook process writes the patch file; ShellOperator.taskHandler handles the run)
 	Operator string `json:"operator,omitempty"`
@@ -134,6 +150,8 @@ type RunObs struct {
 	Ops      []string `json:"ops,omitempty"`       // parsed operations, numbers normalised
 	OpsTyped []string `json:"ops_typed,omitempty"` // parsed operations with the Go type of every scalar
 	Crash    string   `json:"crash,omitempty"`
+	// class Conc: per document, how many writes of the other writer happened (nil when nothing was executed)
+	Used []int `json:"used,omitempty"`
 }
 
 // OpObs is what a whole hook run through the operator's task handler shows.
@@ -548,6 +566,8 @@ func classify(err error) string {
 	switch {
 	case strings.Contains(s, "already exists"):
 		return "AlreadyExists"
+	case strings.Contains(s, "the object has been modified"):
+		return "Conflict"
 	case strings.Contains(s, "failed to apply jqFilter"):
 		return "JqFailed"
 	case strings.Contains(s, "is not supported by cluster"):
@@ -738,6 +758,13 @@ func Run(in Input) Obs {
 		case "yaml":
 			o.SOperator = runOperatorSession(in, RenderYAML)
 		}
+		return o
+	}
+	if in.Conc {
+		o.JSON = runConc(in, RenderJSON(in.Docs))
+		o.YAML = runConc(in, RenderYAML(in.Docs))
+		o.SameOps = o.JSON.ParseOK == o.YAML.ParseOK && sameStrings(o.JSON.Ops, o.YAML.Ops)
+		o.SameTyped = o.JSON.ParseOK == o.YAML.ParseOK && sameStrings(o.JSON.OpsTyped, o.YAML.OpsTyped)
 		return o
 	}
 	o.JSON = runOne(in.Initial, RenderJSON(in.Docs))
@@ -1143,6 +1170,9 @@ func Render(in Input, obs *Obs, crash string) core.Case {
 	if in.Session {
 		return renderSession(in, obs, crash)
 	}
+	if in.Conc {
+		return renderConc(in, obs, crash)
+	}
 	var o Obs
 	if obs != nil {
 		o = *obs
@@ -1532,6 +1562,8 @@ func Gen(r *core.Rng, tier string) ([]core.In[Input], bool) {
 	}
 	// the session class has its own PRNG stream: the streams above do not depend on it
 	ins = genSessions(&gen{r: r.Fork()}, tier, ins)
+	// so has the class with another writer
+	ins = genConc(&gen{r: r.Fork()}, tier, ins)
 	return ins, false
 }
 
@@ -1810,12 +1842,13 @@ func Extra() map[string]any {
 		"fault_kinds":     "unknownOperation noOperation syntax missingObject emptyObject objectIsNumber objectIsArray missingKind missingName emptyName missingJqFilter missingMergePatch emptyMergePatch mergePatchIsArray missingJsonPatch emptyJsonPatch jsonPatchItemNoPath jsonPatchIsObject",
 		"strings_as_text": "object / mergePatch / jsonPatch are given inline, as a YAML string or as a JSON string",
 		"session_class":   "second case class (tag class:session): the fake cluster additionally serves Widget and Gadget, each in a random ordered non-empty subset of example.io/v1, legacy.example.io/v1, apps.example.org/v1beta1 (CRDs registered in a shuffled order: the discovery order, hence the preferred groupVersion of each kind, varies); objects are identified by groupVersion|Kind/namespace/name and the initial cluster mostly holds the same name in several groups; 1-3 executions of 1-3 documents each go one after the other through ONE ObjectPatcher against one cluster (sampled: through one operator, one hook run per execution); delete / patch documents carry no apiVersion (30 %) or one of the serving groupVersions, stream session-unserved also groupVersions that do not serve the kind; observed per execution: parse ok, API calls with the groupVersion they went to, errors, the whole cluster",
+		"conc_class":      "third case class (tag class:conc): between the patcher's recording client and the fake cluster an API-server layer keeps a resourceVersion per object (one revision counter, changed on every write), refuses an Update with an outdated resourceVersion (409 Conflict) and lets ANOTHER WRITER in right before it handles a mutating request (create / update / patch / delete) of the operator: the next write of the queue the input holds for the document's object (set .data[k] = v on the existing object, or create the object) - for JQPatch and CreateOrUpdate that is the window between the operator's Get and its Update. Observed: as for the first class, and per document how many writes of the other writer happened. The whole stream goes through ONE call of the real ExecuteOperations; every document has an object of its own (queues are found by object). The other writer never deletes (an Update answered NotFound is not covered). retry.DefaultBackoff sleeps 10 ms between attempts: real time, not compared",
 		"fake_discovery":  "the fake client has no discovery cache; where the real client invalidates it and reports 'not supported by cluster' the fake dereferences nil: the harness's client wrapper turns exactly that into the real client's error",
 	}
 }
 
 var Driver = core.Driver[Input, Obs]{
-	Spec: core.Spec{Property: "C13", Imports: []string{"Json", "C13_Model", "C13_Spec", "C13_GModel", "C13_GSpec", "C13_Corr"}, Corr: "C13_Corr", ShrinkKey: "docs",
-		Rule: "streams of 1-7 operation documents over 2 kinds x 2 namespaces x 3 names against a random initial cluster, each rendered as JSON and as YAML; streams: corpus, valid, valid-with-integers (integers inside objects), single-fault (a valid stream with one document made invalid, every position in thorough); non-trivial = >=2 documents, or 1 document against a non-empty cluster; sessions (streams session-corpus, session, session-single-fault, session-unserved): 1-3 executions of 1-3 documents through one ObjectPatcher on a cluster serving Widget / Gadget in 1-3 API groups each, non-trivial = >=2 documents; distinct = distinct input JSON"},
+	Spec: core.Spec{Property: "C13", Imports: []string{"Json", "C13_Model", "C13_Spec", "C13_GModel", "C13_GSpec", "C13_CModel", "C13_CSpec", "C13_Corr"}, Corr: "C13_Corr", ShrinkKey: "docs",
+		Rule: "streams of 1-7 operation documents over 2 kinds x 2 namespaces x 3 names against a random initial cluster, each rendered as JSON and as YAML; streams: corpus, valid, valid-with-integers (integers inside objects), single-fault (a valid stream with one document made invalid, every position in thorough); non-trivial = >=2 documents, or 1 document against a non-empty cluster; sessions (streams session-corpus, session, session-single-fault, session-unserved): 1-3 executions of 1-3 documents through one ObjectPatcher on a cluster serving Widget / Gadget in 1-3 API groups each, non-trivial = >=2 documents; another writer (streams conc-grid, conc, conc-single-fault): 1-3 documents, each on an object of its own, against an API-server layer with resourceVersions and 409 Conflict, 0-6 writes of another writer ready per document (one happens right before each mutating request of the operation), conc-grid = 9 operations x target present/absent x 0..6 writes, non-trivial = some document has a write ready; distinct = distinct input JSON"},
 	Gen: Gen, Run: Run, Render: Render, PerShard: 24, Workers: 12, CaseTimout: 60 * time.Second, Extra: Extra,
 }
